@@ -3,10 +3,11 @@ pipeline, classify the outcome of every predicate, lex the emitted SQL into
 SqlScope events (harness/sqllex.py) and - for SQLite - execute it (calibration
 of the lexer/scoper: whatever SQLite executes must be accepted).
 
-A work item is {'id', 'engine', 'text', 'preds': [...], 'meta': {...}}.
+A work item is {'id', 'engine', 'text', 'preds': [...], 'meta': {...},
+'want': {pred: [strings the script of pred must carry as literals]}}.
 The result is {'id', 'engine', 'parse': None | {...}, 'preds': {p: rec}} with
   rec = {'status': 'ok' | 'diag' | 'internal', 'cls', 'msg', 'tb',
-         'texts': [defines_and_exports..., main_predicate_sql] (only with
+         'texts': [preamble, defines_and_exports..., main_predicate_sql] (only with
          item['keep_texts']), 'line' / 'key' / 'kinds' / 'nstr' (see Attach),
          'exec': None | 'ok' | 'error', 'exec_msg'}
 """
@@ -34,11 +35,25 @@ def _Frames(e):
   return [('%s:%s' % (f.filename.split('/')[-1], f.name)) for f in tb[-3:]]
 
 
-def _Execute(m, preamble, texts):
+def _Strings(x):
+  """All string constants of the parsed program (what the real parser read)."""
+  out = set()
+  if isinstance(x, dict):
+    t = x.get('the_string')
+    if isinstance(t, dict) and isinstance(t.get('the_string'), str):
+      out.add(t['the_string'])
+    for v in x.values():
+      out |= _Strings(v)
+  elif isinstance(x, list):
+    for v in x:
+      out |= _Strings(v)
+  return out
+
+
+def _Execute(m, texts):
   con = m['sqlite3_logica'].SqliteConnect()
   try:
     cur = con.cursor()
-    cur.executescript(preamble)
     for s in texts[:-1]:
       cur.executescript(s)
     cur.execute(texts[-1])
@@ -47,12 +62,49 @@ def _Execute(m, preamble, texts):
     con.close()
 
 
-def Attach(rec, trace, engine):
+def SharedWith(ev):
+  """Shape A measured on the events: WITH tables that are defined in the WITH
+  lists of two or more statements of the script and whose body reads another
+  script-defined table (`use`).  Returns the sorted names."""
+  per_stmt, cur, stack, depth = [], {}, [], 0
+  for k, a in ev:
+    if k == 'open':
+      depth += 1
+    elif k == 'close':
+      depth -= 1
+      while stack and stack[-1][1] > depth:
+        stack.pop()
+    elif k in ('with', 'withrec'):
+      while stack and stack[-1][1] >= depth + 1:
+        stack.pop()
+      stack.append((a, depth + 1))
+      cur.setdefault(a, False)
+    elif k == 'use' and stack:
+      cur[stack[0][0]] = True
+      for name, _ in stack:
+        cur[name] = True
+    elif k == 'end':
+      per_stmt.append(cur)
+      cur, stack, depth = {}, [], 0
+  count = collections.Counter()
+  for d in per_stmt:
+    for name, nested in d.items():
+      if nested:
+        count[name] += 1
+  return sorted(n for n, c in count.items() if c >= 2)
+
+
+def Attach(rec, trace, engine, want=()):
   """Stores the trace of a compiled predicate in compact form: `line` is the
   JSON text SqlScopeTrace reads (without the id), `key` identifies equal traces
-  so that each distinct one is sent to TLC once."""
+  so that each distinct one is sent to TLC once.  want: strings of the program
+  that must come back as the decoding of some literal of the script."""
   rec['line'] = json.dumps({'d': engine, 'ev': trace['ev'],
-                            'strs': trace['strs']}, separators=(',', ':'))
+                            'strs': trace['strs'],
+                            'want': [[ord(c) for c in w] for w in want]},
+                           separators=(',', ':'))
+  rec['shared_with'] = SharedWith(trace['ev'])
+  rec['creates'] = sum(1 for e in trace['ev'] if e[0] == 'create')
   rec['key'] = hashlib.sha256(rec['line'].encode()).hexdigest()[:20]
   kinds = collections.Counter(e[0] for e in trace['ev'])
   rec['kinds'] = dict(kinds)
@@ -74,6 +126,7 @@ def CompileItem(item):
                       'msg': impl.ExcText(e)[:400], 'frames': _Frames(e),
                       'tb': traceback.format_exc()[-1500:]}
       return out
+    strings = _Strings(rules)
     for p in item['preds']:
       rec = {'status': 'ok', 'exec': None}
       out['preds'][p] = rec
@@ -81,8 +134,8 @@ def CompileItem(item):
         program = m['universe'].LogicaProgram(rules, user_flags={})
         program.FormattedPredicateSql(p)
         ex = program.execution
-        rec['texts'] = list(ex.defines_and_exports) + [ex.main_predicate_sql]
-        preamble = ex.preamble
+        rec['texts'] = ([ex.preamble] + list(ex.defines_and_exports) +
+                        [ex.main_predicate_sql])
       except BaseException as e:  # pylint: disable=broad-except
         if isinstance(e, KeyboardInterrupt):
           raise
@@ -90,10 +143,18 @@ def CompileItem(item):
                    msg=impl.ExcText(e)[:400], frames=_Frames(e),
                    tb=traceback.format_exc()[-1500:])
         continue
-      Attach(rec, sqllex.Script(rec['texts'], item['engine']), item['engine'])
+      want = (item.get('want') or {}).get(p, ())
+      missing = [w for w in want if w not in strings]
+      if missing:      # the harness wrote the literal wrongly: not a verdict
+        rec.update(status='harness', cls='HarnessError',
+                   msg='program does not contain the strings %r' % missing,
+                   frames=[], tb='')
+        continue
+      Attach(rec, sqllex.Script(rec['texts'], item['engine']), item['engine'],
+             want)
       if item['engine'] == 'sqlite' and item.get('execute', True):
         try:
-          _Execute(m, preamble, rec['texts'])
+          _Execute(m, rec['texts'])
           rec['exec'] = 'ok'
         except BaseException as e:  # pylint: disable=broad-except
           if isinstance(e, KeyboardInterrupt):
